@@ -294,8 +294,21 @@ func scenarioC05(r *Run) {
 				r.Probe("modification-rejected-half-way")
 			}
 		}
+		ueGot := s.PDRs[1].GotUEIP
+		if ending != "report-not-found" && !lossy && r.Ch.Choose(5, "remove-base-pdr") == 1 {
+			// an accepted modification takes away the very PDR through which the UE
+			// address (downlink PDR) or the UP-chosen TEID (uplink PDR) was allocated:
+			// what the session acquired must come back when it ends all the same
+			victim := uint16(1 + r.Ch.Choose(2, "base-victim"))
+			mr := p.Modify(s, &ModSpec{Tag: "rP:base", RemovePDR: []uint16{victim}})
+			r.Op("  modify removing base PDR %d -> accepted=%v", victim, mr.Accepted)
+			r.Skel(fmt.Sprintf("mod:rP:base%d:%v", victim, mr.Accepted))
+			if mr.Accepted {
+				r.Probe("allocating-pdr-removed-before-the-end")
+			}
+		}
 		up := s.UPSEID
-		r.Op("cycle %d: session cp=%d up=%d established (ue=%v teids=%v); ending: %s", c, s.CPSEID, up, s.PDRs[1].GotUEIP, teids, ending)
+		r.Op("cycle %d: session cp=%d up=%d established (ue=%v teids=%v); ending: %s", c, s.CPSEID, up, ueGot, teids, ending)
 		r.Skel("end:" + ending)
 		kinds[ending] = true
 		if !quietDone && !lossy && ending != "deletion" && r.Ch.Choose(5, "long-quiet") == 1 {
